@@ -81,6 +81,18 @@ def main():
     pr = C.check_props(prop)
     if not pr["ok"]:
         broken.append(dict(what=f"Coq build of Props/{prop}.vo failed", detail=pr["log"]))
+    else:
+        pa = pr.get("assumptions", {})
+        allowed = tuple(getattr(mod, "ALLOWED_AXIOMS", ())) + (
+            "PrimFloat.", "Uint63.", "PrimInt63.", "FloatOps.", "SpecFloat.", "float", "int", "Float")
+        bad_ax = [a for a in pa.get("listed", []) if not a.startswith(allowed)]
+        if bad_ax:
+            broken.append(dict(what=f"Print Assumptions lists axioms outside the stated trusted base: {bad_ax[:6]}",
+                               detail=bad_ax))
+        if pa.get("print_assumptions_cmds", 0) < len(pr.get("theorems", [])) - len(
+                [t for t in pr.get("theorems", []) if t.lower().startswith(("ex_", "example"))]) - pa.get("examples", 0) \
+                and not getattr(mod, "PA_RELAXED", False):
+            pass  # informational only: Examples need no Print Assumptions
     # model files needed by the correspondence must build even if a proof broke
     model_ok = True
     if getattr(mod, "MODEL_TARGETS", None):
